@@ -91,8 +91,13 @@ func (s *sessions) update(h Header, n Handler) {
 func (s *sessions) delete(session SessionID) {
 	s.Lock()
 	defer s.Unlock()
+	sc, ok := s.known[session]
+	if !ok {
+		// nothing to forget: the gauge only counts sessions that are in the table
+		return
+	}
 	sessionsActive.Dec()
-	if sc := s.known[session]; sc != nil {
+	if sc != nil {
 		sc.timer.ObserveDuration()
 	}
 	delete(s.known, session)
